@@ -85,3 +85,24 @@ Definition ex_kb : kbtoken :=
 Definition ex_ko : kbopts := {| ko_nonce := None; ko_aud := None; ko_method_id := None; ko_scope := None; ko_earliest := None; ko_latest := None |}.
 Theorem kb_pinned_panics : validate_kb_pinned 0 ex_kb ex_holder ex_ko = Panic /\ validate_kb 0 ex_kb ex_holder ex_ko = Err KSignature.
 Proof. split; vm_compute; reflexivity. Qed.
+
+(* what can never be accepted, in the words of the statement: a key-binding JWT made for another
+   presentation of the disclosures (digest), another verifier request (nonce), another audience, or
+   issued in the future - whatever else holds *)
+Ltac kb_destruct H :=
+  apply kb_accept_iff_fixed in H;
+  destruct H as [_ [_ [_ [_ [_ [Hc [Hd [Hn [Ha [_ [_ Hl]]]]]]]]]]].
+Theorem kb_accepted_is_claims now t holder o c : validate_kb now t holder o = Ok c -> kb_claims t = Some c.
+Proof. intros H. kb_destruct H. exact Hc. Qed.
+Theorem kb_other_digest_rejected now t holder o c c' :
+  kb_claims t = Some c -> kc_sd_hash c <> kb_digest t -> validate_kb now t holder o <> Ok c'.
+Proof. intros E N H. kb_destruct H. rewrite E in Hc. inversion Hc; subst c'. contradiction. Qed.
+Theorem kb_other_nonce_rejected now t holder o c c' n :
+  kb_claims t = Some c -> ko_nonce o = Some n -> n <> kc_nonce c -> validate_kb now t holder o <> Ok c'.
+Proof. intros E En N H. kb_destruct H. rewrite E in Hc. inversion Hc; subst c'. apply N, Hn, En. Qed.
+Theorem kb_other_audience_rejected now t holder o c c' a :
+  kb_claims t = Some c -> ko_aud o = Some a -> a <> kc_aud c -> validate_kb now t holder o <> Ok c'.
+Proof. intros E Ea N H. kb_destruct H. rewrite E in Hc. inversion Hc; subst c'. apply N, Ha, Ea. Qed.
+Theorem kb_future_rejected now t holder o c c' :
+  kb_claims t = Some c -> ko_latest o = None -> now < kc_iat c -> validate_kb now t holder o <> Ok c'.
+Proof. intros E El N H. kb_destruct H. rewrite E in Hc. inversion Hc; subst c'. rewrite El in Hl. lia. Qed.
